@@ -166,4 +166,18 @@ theorem C03_source_transform_symm (a b : SyncOp) :
     Src.transform b a = ((Src.transform a b).2, (Src.transform a b).1) := by
   rw [src_transform_eq, src_transform_eq]; exact transform_symm a b
 
+/-- **the documented conflict rule, read off the source's function**: two concurrent updates of the
+    same property of the same task — identical ones cancel, otherwise the one with the later
+    `(timestamp, value)` survives and the other is dropped; stated for `SyncOp::transform` as
+    /repo's source defines it now (translated on every run) -/
+theorem C03_source_conflict_rule (u : Nat) (k : String) (v1 v2 : Option String) (t1 t2 : Int) :
+    Src.transform (.update u k v1 t1) (.update u k v2 t2) =
+      if t1 = t2 ∧ v1 = v2 then (none, none)
+      else if later t1 v1 t2 v2 = true then (none, some (.update u k v2 t2))
+      else (some (.update u k v1 t1), none) := by
+  rw [src_transform_eq]
+  simp only [transform, later, and_self, if_true]
+  have := vlt_irrefl v1
+  grind
+
 end Tc
